@@ -148,7 +148,7 @@ def rule_validate(ctx, ts):
         kinds[cond] = body
     # closed by assert False
     else_body = kinds.get("else") or []
-    closed = any(isinstance(x, N.CallBlock) and "_do_assert" in xs(x.call) and xs(x.call.args[0]) == "False" for b in else_body for x in [b] + list(b.find_all(N.CallBlock)))
+    closed = any(j2front.is_assert_false(N, x) for b in else_body for x in j2front.find_asserts(N, b))
     ctx.ob(R, t.rel, "setter kind dispatch is closed by `assert False`", closed, "" if closed else "an unknown field kind gets a setter without body", chain.lineno)
     want = ["(f.data_type is BooleanType)", "(f.data_type is IntegerType)", "(f.data_type is FloatType)", "(f.data_type is ArrayType)", "(f.data_type is CompositeType)"]
     for w in want:
